@@ -25,21 +25,36 @@ def within(d, c):
 
 
 def optimal_walks(n, edges, d, s, t, cap=2):
-    """number (capped) of walks of permitted arcs from s to t whose weight is d[s][t], as edge sequences"""
-    tight = {}
-    for (u, v, w, i) in nc.arcs(edges):
-        if d[s][u] is not None and d[s][v] is not None and d[s][u] + w == d[s][v]:
-            tight.setdefault(u, []).append(v)
-    count = 0
-    stack = [(s, 0)]
-    while stack and count < cap:
-        u, depth = stack.pop()
-        if u == t and depth > 0:
-            count += 1
-        if depth < 2 * n + 1:
-            for v in tight.get(u, []):
-                stack.append((v, depth + 1))
-    return count
+    """min(2, number of walks of permitted arcs from s to t != s whose weight is d[s][t]) (walks as edge sequences;
+    zero-weight cycles give infinitely many). Linear: in the sub-graph of the tight arcs that lie on some optimal walk
+    to t, there are two walks iff some node has two outgoing arcs or t has one."""
+    if d[s][t] is None:
+        return 0
+    tight = [(u, v) for (u, v, w, i) in nc.arcs(edges)
+             if d[s][u] is not None and d[s][v] is not None and d[s][u] + w == d[s][v]]
+    fwd, bwd = {}, {}
+    for (u, v) in tight:
+        fwd.setdefault(u, []).append(v)
+        bwd.setdefault(v, []).append(u)
+
+    def closure(start, adj):
+        seen, stack = {start}, [start]
+        while stack:
+            for y in adj.get(stack.pop(), []):
+                if y not in seen:
+                    seen.add(y)
+                    stack.append(y)
+        return seen
+    R = closure(s, fwd) & closure(t, bwd)
+    if t not in R or s not in R:
+        return 0
+    out = {}
+    for (u, v) in tight:
+        if u in R and v in R:
+            out[u] = out.get(u, 0) + 1
+    if out.get(t, 0) > 0 or any(k > 1 for k in out.values()):
+        return 2
+    return 1
 
 
 def de_bruijn_pairs(q):
@@ -251,6 +266,8 @@ class P(Prop):
         (M, "TV.C07.session_dist_fresh", "shortest_distance(s,t,cut) at any point of a session = on a fresh network"),
         (M, "TV.C07.session_path_dist_same_state", "shortest_path and shortest_distance with the same arguments leave the same node flags and write the same output_dict entries"),
         (M, "TV.C07.session_outputs_ok", "in ANY sequence of shortest_path / shortest_distance / run_routing_forward / run_routing_backward calls on one network, the backward loop terminates and every returned track is the chain of a real route whose weights sum to the label of its last node"),
+        (M, "TV.C07.backward_settled_optimal", "after a search stopped at another target or by a cut-off, run_routing_backward(t) for any node t != s settled before the stop returns a route realising the true distance"),
+        (M, "TV.C07.output_dict_entries_sound", "every entry (s,u) -> y written to output_dict by shortest_path / any search is the true distance s->u and does not exceed the cut-off"),
         (M, "TV.C07.backward_after_full_search", "after a search without target and cut-off (shortest_distance(s) / run_routing_forward(s)), run_routing_backward(t) = None iff t unreachable or t = s, else a route s->t realising the true distance"),
     ]
     partial = []
@@ -266,7 +283,7 @@ class P(Prop):
             "different weight) with node positions on an integer lattice (some coincident) and edge polylines of 1-5 vertices from the source's to the target's position (straight, bent, repeated "
             "consecutive vertices, coming back over an end point, over another node, closed loops); a 'loose' stream whose polylines ignore the node positions (0-4 vertices; geometry compared "
             "with the model only). Networks built with int or str ids, with the caller's Node objects / fresh Node objects per edge (as NetworkReader) / nodes created by addEdge; edge geometries "
-            "with or without an analytical feature. Calls: every ordered pair by shortest_path on ONE object; for the graphs with <= 1 edge (quick) / <= 2 edges (thorough) a sequence in which every ordered pair "
+            "with or without an analytical feature. Calls: every ordered pair by shortest_path on ONE object; for the same enumerated graphs a sequence in which every ordered pair "
             "of queries is consecutive; random sessions mixing shortest_path, shortest_distance (pair / list), run_routing_forward, run_routing_backward (several targets after one search, before "
             "any search), nodes by id / own object / fresh object, output_dict, source = target, unreachable after reachable, cut-offs below / at / above the distances. "
             "non-trivial = some call returns a path; tags count zero-weight edges, edges traversed against their stored direction, ties, op kinds")
@@ -277,7 +294,7 @@ class P(Prop):
     # ---------------------------------------------------------------- generators
     def exhaustive_scopes(self, tier):
         s = ["all edge lists (ordered) of length 0..2 on 1..3 nodes, weights {0,1,2}, orientations {-1,0,1} (8067 graphs), one random lattice geometry each, all ordered pairs by shortest_path on one Network object",
-             "all edge lists of length 0..%d on 1..3 nodes over the same alphabet: a sequence of shortest_path calls on one object in which EVERY ordered pair of queries (s1,t1),(s2,t2) is consecutive" % (1 if tier == "quick" else 2)]
+             "the same 8067 graphs: a sequence of shortest_path calls on one object in which EVERY ordered pair of queries (s1,t1),(s2,t2) is consecutive (82 calls for 3 nodes)"]
         if tier == "thorough":
             s.append("all multisets of 3 edges on 1..3 nodes over the same alphabet (100482 multigraphs), edge / node insertion order shuffled, one random geometry each")
         return s
@@ -311,7 +328,7 @@ class P(Prop):
                 for e in nc.enum_graphs(n, k, ordered=True):
                     order = list(range(n)); rng.shuffle(order)
                     out.append(self.with_geometry(rng, {"kind": "ex", "n": n, "order": order, "e": list(e)}))
-                    if k <= (1 if tier == "quick" else 2):
+                    if True:
                         out.append(self.with_geometry(rng, {"kind": "ex-seq", "seq": "euler", "n": n, "order": order, "e": list(e)}))
         if tier == "thorough":
             for n in (1, 2, 3):
@@ -319,7 +336,7 @@ class P(Prop):
                     e = list(e); rng.shuffle(e)
                     order = list(range(n)); rng.shuffle(order)
                     out.append(self.with_geometry(rng, {"kind": "ex3", "n": n, "order": order, "e": e}))
-        nsmall, nbig, nsess = (1500, 400, 2500) if tier == "quick" else (20000, 5000, 40000)
+        nsmall, nbig, nsess = (1500, 400, 4000) if tier == "quick" else (20000, 5000, 100000)
         for _ in range(nsmall):
             g = dict(nc.random_graph(rng, small=True), kind="rnd-small")
             if rng.random() < 0.3:
